@@ -283,6 +283,11 @@ func (g *Gen) loopMods(li *loopInfo) (comps []string, ghosts []string) {
 						gs["$called:"+name] = true
 						gs["$ok:"+name] = true
 						gs["$count:"+name] = true
+						for gn := range g.ghostSorts {
+							if strings.HasPrefix(gn, "$res:"+name+":") {
+								gs[gn] = true
+							}
+						}
 					}
 				}
 			}
@@ -310,6 +315,9 @@ func (g *Gen) collectSelectors() {
 			return
 		}
 		if e.Kind == SCall && (e.Name == "called" || e.Name == "succeeded" || e.Name == "count") && len(e.Args) == 1 {
+			g.selectors[selName(e.Args[0])] = true
+		}
+		if e.Kind == SCall && e.Name == "result_of" && len(e.Args) == 2 {
 			g.selectors[selName(e.Args[0])] = true
 		}
 		walk(e.X)
